@@ -257,7 +257,7 @@ def c10(tier):
 
 import convgen
 
-def conv_inst(name, L, opts="", defs=(), timeout=600, functions=None, keep=None):
+def conv_inst(name, L, opts="", defs=(), timeout=600, functions=None, keep=None, extra_defines=None):
     if keep is not None:
         L.concretize(keep)
     n = len(L.tpl)
@@ -269,6 +269,7 @@ def conv_inst(name, L, opts="", defs=(), timeout=600, functions=None, keep=None)
     if rt: cap = max(cap, min(clen + 3, sum(linelens[:3]) + 14))
     d = {"STRCAP": cap, "VCAP": max(len(L.exps), len(L.secs) + 1, 2) + 1, "VFS_CONTENT": max(n, clen) + 1, "VFS_MAXNODES": 4 if rt else 2, "FMTCAP": max(cap + 4, 24)}
     for x in defs: d[x] = None
+    if extra_defines: d.update(extra_defines)
     E = max(len(L.exps), 1); G = len(L.secs) + 1
     uw = lib_unwinds(E, G, lines=max(L.line, (L.canon().count(-10) if rt else 0)) + 1) + [(r"p_conv\.c", r"r < NREL", len(L.rels) + 1), (r"p_conv\.c", r"p < FLEN", n + 1),
           (r"p_conv\.c", r"i < NEXP", len(L.exps) + 1), (r"p_conv\.c", r"i < NSEC|s < NSEC", len(L.secs) + 2), (r"p_conv\.c", r"p < MAXP", 5),
@@ -675,6 +676,40 @@ def join_insts(tier):
             insts.append(inst)
     return insts
 
+def c14(tier):
+    BS, PM = 8, 16
+    sc = {"V_BUFSIZ": BS, "V_PATH_MAX": PM}
+    lens = [1, BS - 2, BS - 1, BS, BS + 1, BS + 2, 2 * BS] if tier == "thorough" else [BS - 1, BS, BS + 1, 2 * BS]
+    insts = []
+    defs = ("CHECK_META", "CHECK_EXT", "ROUNDTRIP")
+    for n in lens:
+        for field in ("key", "value", "quoted", "section", "comment_before", "comment_after", "cont"):
+            L = convgen.Layout("=", "#"); f = ("", True, "")
+            if field == "key": L.entry("", n, f, "plain1", "")
+            elif field == "value": L.entry("", 1, f, "plainN%d" % n, "")
+            elif field == "quoted": L.entry("", 1, f, "quotedN%d" % n, "")
+            elif field == "section": L.section("", n, ""); L.entry("", 1, f, "plain1", "")
+            elif field == "comment_before": L.comment_line("", n); L.entry("", 1, f, "plain1", "")
+            elif field == "comment_after": L.entry("", 1, f, "plain1", " H" + "c" * n)
+            elif field == "cont": L.entry("", 1, f, "plain1", ""); L.cont(" ", n, "")
+            i = conv_inst("len-%s-%d" % (field, n), L, defs=defs, keep="", extra_defines=sc)
+            i.functional_only = False    # buffer overruns are the subject: keep CBMC's bounds and pointer checks
+            i.leak_check = True
+            insts.append(i)
+    for n in ([BS - 1, BS, 2 * BS + 2] if tier == "quick" else list(range(0, 2 * BS + 3))):
+        insts.append(small("len-setget-%d" % n, "l_setget.c", {"VLEN": n, "STRCAP": 2 * BS + 6, "V_BUFSIZ": BS, "V_PATH_MAX": PM}, unwind=2 * BS + 7, E=2, G=2,
+                           extra_uw=[(r"libeconf_ext\.c", r"strsep", 4), (r"builtin-library-strncpy", r"", 2 * BS + 8), (r"l_setget\.c", r"i < VLEN", 2 * BS + 6)],
+                           functions="econf_setStringValue, econf_getStringValue, econf_getExtValue", bounds="value of %d characters (scaled BUFSIZ = %d) set through the API and fetched by the plain and the extended getter" % (n, BS)))
+    for n in ([PM - 2, PM - 1, PM, PM + 2] if tier == "quick" else list(range(PM - 4, PM + 4))):
+        insts.append(small("len-path-%d" % n, "l_path.c", {"PLEN": n, "STRCAP": 2 * PM + 8, "V_BUFSIZ": BS, "V_PATH_MAX": PM, "VFS_CONTENT": 6}, unwind=2 * PM + 9, E=2, G=2,
+                           extra_uw=[(r"getfilecontents\.c", r"while \(getline", 3), (r"l_path\.c", r"i < PLEN", 2 * PM + 6)],
+                           functions="econf_readFile, read_file (last scanned file name), econf_errLocation, econf_getPath", bounds="absolute file name of %d characters (scaled PATH_MAX = %d)" % (n, PM)))
+    return {"instances": insts, "assumptions": COMMON_ASSUME + ["SCALING: BUFSIZ := 8 and PATH_MAX := 16 (force-included); the library uses both only through the macros, so buffer-relative behaviour is preserved while the boundaries become reachable with short strings; the real 8192/4096 values and 64 Ki / 1 Mi fields are outside the bound",
+            "field lengths are concrete per instance {BUFSIZ-1, BUFSIZ, BUFSIZ+1, 2*BUFSIZ} (more in thorough), field characters concrete letters (the subject is length, and lengths must be concrete for the symbolic execution)",
+            "paths longer than PATH_MAX-1 are beyond the operating-system limit: for those only the absence of buffer overruns is claimed, not exact reporting",
+            "util/econftool.c replace_str (fixed 1024-byte buffer that cannot be scaled) is not covered"],
+            "explanation": "every field kind at lengths around the (scaled) stdio buffer size through read, plain and extended getters, write and read-back, with CBMC's bounds checks"}
+
 def c13(tier):
     seed = int(__import__("os").environ.get("VERIF_SEED", "0") or 0)
     insts = conv_family(tier, seed, err=True, sysl=False, per_class=3 if tier == "quick" else 14, tag="err", defs=(), delims=["eq", "coleq", "sp", "speq"] if tier == "quick" else None,
@@ -694,7 +729,7 @@ def c20(tier):
             "uninitialised reads: fresh heap memory has arbitrary contents in CBMC, so a read of a never-written field makes the harness assertions on it fail"],
             "explanation": "every early-return path of the layered read with a failure injected at a chosen consulted file, plus API histories, under CBMC's leak / double-free / use-after-free checks"}
 
-REGISTRY = {"C15": c15, "C07": c07, "C05": c05, "C17": c17, "C06": c06, "C12": c12, "C13": c13, "C16": c16, "C20": c20, "C01": c01, "C02": c02, "C10": c10, "C11": c11, "C03": c03, "C04": c04, "C08": c08, "C09": c09}
+REGISTRY = {"C14": c14, "C15": c15, "C07": c07, "C05": c05, "C17": c17, "C06": c06, "C12": c12, "C13": c13, "C16": c16, "C20": c20, "C01": c01, "C02": c02, "C10": c10, "C11": c11, "C03": c03, "C04": c04, "C08": c08, "C09": c09}
 
 def get(prop, tier):
     if prop not in REGISTRY:
